@@ -16,10 +16,10 @@ import (
 // one answers. No reference evaluator is involved: the oracle is the first ACL's own earlier answers and
 // an ACL built from freshly parsed, unshared copies of the same policies.
 func TestVerif_C03_Isolation(t *testing.T) {
-	rec := verifx.NewRecorder("C03", "acl-isolation", "2-4 policies with one stanza each on the same path (update/create/read; allowed_parameters, denied_parameters on k1 with 0-6 values, required_parameters 0-3 keys), parsed once; ACL A from an ordered subset, its answers for 16 requests recorded; ACL B from another ordered subset of the same parsed objects; A asked again and compared with its earlier answers and with an ACL from fresh copies; non-trivial = A and B share a policy object and both have >= 2 policies")
+	rec := verifx.NewRecorder("C03", "acl-isolation", "2-4 policies with one stanza each on the same path (update/create/read; allowed_parameters, denied_parameters on k1 with 0-6 values, required_parameters 0-3 keys), parsed once; ACL A from an ordered subset, its answers for 40 requests recorded; ACL B from another ordered subset of the same parsed objects; A asked again and compared with its earlier answers and with an ACL from fresh copies; non-trivial = A and B share a policy object and both have >= 2 policies")
 	defer rec.Flush()
 	values := []string{"v0", "v1", "v2", "v3", "v4", "v5", "v6", "v7"}
-	keys := []string{"k1", "k2", "k3"}
+	keys := []string{"k1", "k2", "k3", "k4", "k5"}
 	rapid.Check(t, func(rt *rapid.T) {
 		n := rapid.IntRange(2, 4).Draw(rt, "npolicies")
 		pols := make([]c03Policy, n)
@@ -76,7 +76,7 @@ func TestVerif_C03_Isolation(t *testing.T) {
 		for _, v := range values {
 			reqs = append(reqs, c03Req{Path: "a", Data: []c03KV{{Key: "k1", Vals: []any{v}}, {Key: "k2", Vals: []any{"x"}}, {Key: "k3", Vals: []any{"x"}}}})
 		}
-		for mask := 0; mask < 8; mask++ {
+		for mask := 0; mask < 1<<len(keys); mask++ {
 			r := c03Req{Path: "a"}
 			for b, k := range keys {
 				if mask&(1<<b) != 0 {
